@@ -32,10 +32,17 @@ def parse_case(line):
     ops = [] if m.get("ops", "-") in ("", "-") else m["ops"].split(";")
     coords = [] if m.get("coords", "-") in ("", "-") else m["coords"].split(",")
     mx = m.get("max", "-")
-    return {"kind": m.get("kind", "mem"), "max": None if mx == "-" else int(mx), "pool": pool, "ops": ops, "coords": coords}
+    c = {"kind": m.get("kind", "mem"), "max": None if mx == "-" else int(mx), "pool": pool, "ops": ops, "coords": coords}
+    if c["kind"] == "exp":
+        c.update(seed=int(m.get("seed", "1")), pairs=int(m.get("pairs", "1")),
+                 mats=[] if m.get("mats", "-") in ("", "-") else m["mats"].split(","))
+    return c
 
 
 def render_case(c):
+    if c["kind"] == "exp":
+        return (f"kind=exp seed={c['seed']} pairs={c['pairs']} pool={','.join(hx(b) for b in c['pool'])} "
+                f"mats={','.join(c['mats']) or '-'}")
     s = f"kind={c['kind']}"
     if c["kind"] in ("mem", "idx"):
         s += f" max={'-' if c['max'] is None else c['max']}"
@@ -164,8 +171,8 @@ def gen_disk_every_file(rng):
 
 def gen_coords(rng):
     ns = ["app", "app/", "ap", "écho", ""]
-    sc = ["aa" * 4, "ab" * 4, "AA" * 4]
-    ar = ["01" * 4, "02" * 4]
+    sc = ["aa", "ab", "AA"]
+    ar = ["01", "02"]
     dg = [0, 1, 1 << 255, (1 << 256) - 1, rng.getrandbits(256)]
     base = [rng.choice(ns), rng.choice(sc), rng.choice(ar), rng.randrange(6), rng.choice(dg)]
     out = [list(base)]
@@ -214,6 +221,35 @@ def gen_idx(rng, big=False):
             ops.append(store_op(rng, n, False))
     mx = rng.choice([None, None, 3, 1 << 20])
     return {"kind": "idx", "max": mx, "pool": pool, "coords": coords, "ops": ops}
+
+
+def gen_exp(rng):
+    """causal-history record set for the three export profiles: 1-3 submission/tick pairs in a real WAL segment and
+    0-4 retained material records (kind/posture/coordinate) whose digests are the BLAKE3 of pool items"""
+    n = rng.randint(0, 4)
+    pool, mats, seen = [], [], set()
+    for i in range(n):
+        if pool and rng.random() < 0.12:
+            pi = rng.randrange(len(pool))              # same bytes under another record (typed duplicate-mismatch)
+        else:
+            b = rand_bytes(rng)
+            while tuple(b) in seen:
+                b = b + [rng.randint(0, 255)]
+            seen.add(tuple(b)); pool.append(b); pi = len(pool) - 1
+        posture = 0 if rng.random() < 0.75 else rng.randint(1, 5)
+        coord = rng.choice([1, 2, 3, 1 << 255, (1 << 256) - 1])
+        mats.append([rng.randint(1, 7), posture, coord, pi])
+    if not pool:
+        pool = [[1]]
+    # one corrupted version per material (flip / truncate / extend / replace), different from every original
+    for m in mats:
+        bad = corrupt(rng, pool[m[3]])
+        while tuple(bad) in seen:
+            bad = bad + [rng.randint(0, 255)]
+        seen.add(tuple(bad)); pool.append(bad); m.append(len(pool) - 1)
+    mats = [f"{m[0]}/{m[1]}/{vf.hex32(m[2])}/{m[3]}/{m[4]}" for m in mats]
+    return {"kind": "exp", "max": None, "pool": pool, "coords": [], "ops": [], "seed": rng.getrandbits(32),
+            "pairs": rng.randint(1, 3), "mats": mats}
 
 
 def exhaustive(kind, depth):
@@ -318,26 +354,210 @@ def iop_term(tok, c, hs, R):
 
 
 def to_term(c, hs):
+    """(fun H uni c0 .. => (fun r => observations) (run ...)) (table_hash [...]) [...] coords...
+    beta-redexes rather than nested lets: Coq's type checker is super-linear in nested let-bound literals"""
     R, RC = case_ranks(c, hs)
     N = R.N
     tbl = ";".join(f"({vf.coq_bytes(b)},{N(h)})" for b, h in zip(c["pool"], hs))
     uni = ";".join(N(h) for h in universe(c, hs))
-    head = f"let tbl : list (bytes * N) := [{tbl}] in let H := table_hash tbl in let uni : list N := [{uni}] in "
     mx = "None" if c["max"] is None else f"(Some {c['max']})"
     memdump = ("(map (fun h => (mem_get s h, mem_is_pinned s h)) uni, mem_len s, m_bytes s, "
                "mem_pinned_count s, mem_over_budget s)")
+    args = f"(table_hash [{tbl}]) [{uni}]"
     if c["kind"] == "mem":
         ops = ";".join(op_term(o, c, hs, R) for o in c["ops"])
-        return (head + f"let r := mem_run H (mem_new {mx}) [{ops}] in let s := fst r in (snd r, {memdump})")
+        return (f"(fun (H : bytes -> N) (uni : list N) => (fun r : mtier * list out => (fun s : mtier => (snd r, {memdump})) (fst r)) "
+                f"(mem_run H (mem_new {mx}) [{ops}])) {args}")
     if c["kind"] == "disk":
         ops = ";".join(op_term(o, c, hs, R) for o in c["ops"])
-        return (head + f"let r := disk_run H (disk_open []) [{ops}] in let d := fst r in "
-                "(snd r, (map (fun h => (disk_get H d h, disk_is_pinned d h)) uni, disk_pinned_count d, d_files d))")
-    cs = "".join(f"let c{i} : coord := {coord_term(s, RC)} in " for i, s in enumerate(c["coords"]))
+        return (f"(fun (H : bytes -> N) (uni : list N) => (fun r : disk * list out => (fun d : disk => "
+                "(snd r, (map (fun h => (disk_get H d h, disk_is_pinned d h)) uni, disk_pinned_count d, d_files d))) (fst r)) "
+                f"(disk_run H (disk_open []) [{ops}])) {args}")
+    nc = len(c["coords"])
+    cb = "".join(f" (c{i} : coord)" for i in range(nc))
+    ca = "".join(f" {coord_term(s, RC)}" for s in c["coords"])
     ops = ";".join(iop_term(o, c, hs, R) for o in c["ops"])
-    descs = ";".join(f"descriptor ix c{i}" for i in range(len(c["coords"])))
-    return (head + cs + f"let r := irun H ([], mem_new {mx}) [{ops}] in let ix := fst (fst r) in let s := snd (fst r) in "
-            f"(snd r, {memdump}, [{descs}])")
+    descs = ";".join(f"descriptor ix c{i}" for i in range(nc))
+    return (f"(fun (H : bytes -> N) (uni : list N){cb} => (fun r : istate * list iout => (fun (ix : index) (s : mtier) => "
+            f"(snd r, {memdump}, [{descs}])) (fst (fst r)) (snd (fst r))) "
+            f"(irun H ([], mem_new {mx}) [{ops}])) {args}{ca}")
+
+
+# ---- export profiles (record-level model of the material validation) ----
+EXP_SEG = [255, 254, 253]          # stands for the WAL segment bytes (the model never looks inside them)
+
+
+def exp_worlds(c, hs):
+    """Mirrors the variant construction of harness c20.rs `exp::run`.  Returns (variants, R, RC): variants is a list of
+    (name, stage, coq_term); stage in {'x','i'} says whether the harness observes it at export or import."""
+    mats = []
+    for t in c["mats"]:
+        f = t.split("/")
+        mats.append({"kind": int(f[0]), "post": int(f[1]), "coord": int(f[2], 16), "pi": int(f[3]),
+                     "bad": int(f[4]) if len(f) > 4 else None})
+    for m in mats:
+        m["dig"] = hs[m["pi"]]; m["bytes"] = c["pool"][m["pi"]]
+    seg_h = max(hs) + 1 if hs else 1
+    R = Ranks(list(hs) + [seg_h])
+    RC = Ranks([m["coord"] for m in mats] + [0])
+    def mat(m, dig=None, post=None):
+        return f"({R.N(m['dig'] if dig is None else dig)},({RC.N(m['coord'])},({m['kind']},{m['post'] if post is None else post})))"
+    def pays(ms, skip=None, subst=None):
+        out = []
+        for i, m in enumerate(ms):
+            if m["post"] == 0 and i != skip:
+                b = subst[1] if subst and subst[0] == i else m["bytes"]
+                out.append(f"({mat(m)},{vf.coq_bytes(b)})")
+        return "[" + ";".join(out) + "]"
+    def mlist(ms):
+        return "[" + ";".join(mat(m) for m in ms) + "]"
+    def refs(ms, bump=None, drop=None):
+        out = []
+        for i, m in enumerate(ms):
+            if m["post"] == 0 and not (drop is not None and (m["dig"], m["coord"], m["kind"]) == drop):
+                out.append(f"(({m['kind']},{RC.N(m['coord'])}),({R.N(m['dig'])},{len(m['bytes']) + (1 if bump == i else 0)}))")
+        return "[" + ";".join(out) + "]"
+    def cas(ms, without=None, repl=None, noseg=False):
+        ent = [] if noseg else [(seg_h, EXP_SEG)]
+        for m in ms:
+            if m["post"] == 0 and all(e[0] != m["dig"] for e in ent):
+                ent.append((m["dig"], m["bytes"]))
+        ent = [(h, (repl[1] if repl and repl[0] == h else b)) for h, b in ent if h != without]
+        return "[" + ";".join(f"({R.N(h)},{vf.coq_bytes(b)})" for h, b in ent) + "]"
+    seg = lambda bump=0: f"[((0,{RC.N(0)}),({R.N(seg_h)},{len(EXP_SEG) + bump}))]"
+    SC = lambda M, P: f"(inl (sc_check H {M} {P}), retention_ok {M})"
+    CAS = lambda M, SG, RF, CS: f"(inr (cas_check H {M} {SG} {RF} {CS}), retention_ok {M})"
+    present = [i for i, m in enumerate(mats) if m["post"] == 0]
+    V = [("sc", SC(mlist(mats), pays(mats)))]
+    for i in present:
+        m = mats[i]
+        bad = c["pool"][m["bad"]]
+        V.append((f"sc.w{i}", SC(mlist(mats), pays(mats, skip=i))))
+        V.append((f"sc.c{i}", SC(mlist(mats), pays(mats, subst=(i, bad)))))
+        m2 = [dict(x, post=3) if x["dig"] == m["dig"] else x for x in mats]
+        V.append((f"sc.iw{i}.x", SC(mlist(m2), pays(m2))))
+        V.append((f"sc.iw{i}", SC(mlist(mats), pays(m2))))
+        bh = hs[m["bad"]]
+        m3 = [dict(x, dig=bh, bytes=bad) if x["dig"] == m["dig"] else x for x in mats]
+        V.append((f"sc.ic{i}.x", SC(mlist(m3), pays(m3))))
+        V.append((f"sc.ic{i}", SC(mlist(mats), pays(m3))))
+    V.append(("cas", CAS(mlist(mats), seg(), refs(mats), cas(mats))))
+    V.append(("cas.wseg", CAS(mlist(mats), seg(), refs(mats), cas(mats, noseg=True))))
+    seen = set()
+    for i in present:
+        m = mats[i]
+        if m["dig"] in seen:
+            continue
+        seen.add(m["dig"])
+        V.append((f"cas.w{i}", CAS(mlist(mats), seg(), refs(mats), cas(mats, without=m["dig"]))))
+        V.append((f"cas.c{i}.given", CAS(mlist(mats), seg(), refs(mats), cas(mats, repl=(m["dig"], c["pool"][m["bad"]])))))
+    for i in present:
+        V.append((f"cas.l{i}", CAS(mlist(mats), seg(), refs(mats, bump=i), cas(mats))))
+    V.append(("cas.lseg", CAS(mlist(mats), seg(1), refs(mats), cas(mats))))
+    if present:
+        i = present[0]; m = mats[i]
+        V.append((f"cas.xr{i}", CAS(mlist(mats), seg(), refs(mats, drop=(m["dig"], m["coord"], m["kind"])), cas(mats))))
+        m2 = [dict(x, post=3) if j == i else x for j, x in enumerate(mats)]
+        V.append((f"cas.ir{i}.x", CAS(mlist(m2), seg(), refs(m2), cas(mats))))
+        V.append((f"cas.ir{i}", CAS(mlist(mats), seg(), refs(m2), cas(mats))))
+    return V, R, RC, seg_h
+
+
+def to_term_exp(c, hs):
+    V, R, RC, seg_h = exp_worlds(c, hs)
+    tbl = ";".join(f"({vf.coq_bytes(b)},{R.N(h)})" for b, h in zip(c["pool"], hs))
+    tbl += (";" if tbl else "") + f"({vf.coq_bytes(EXP_SEG)},{R.N(seg_h)})"
+    body = ";".join(f"({t} : (sc_res + cas_res) * bool)" for _, t in V)
+    return f"(fun (H : bytes -> N) => [{body}]) (table_hash [{tbl}])"
+
+
+def exp_tok(v, R, RC, stage):
+    """token the harness prints for a validation outcome observed at export ('x') or import ('i')"""
+    side, res = v[1], v[2][0]
+    px = "E:x-" if stage == "x" else "E:"
+    hxr = lambda r: R.hex(r)
+    if res in ("SCOk", "CASOk"):
+        return "ok"
+    if res == "SCDuplicate":
+        return "E:x-retained-envelope" if stage == "x" else "E:other"
+    if res == "CASDuplicate":
+        return "E:x-cas-references" if stage == "x" else "E:cas-references"
+    tag, a = res[1], res[2]
+    if tag == "SCDigestMismatch":
+        return f"{px}digest-mismatch:{hxr(a[0])}:{hxr(a[1])}"
+    if tag == "SCMissing":
+        return f"{px}missing-retained:{hxr(a[0])}"
+    if tag == "SCExtra":
+        return f"{px}extra-retained:{hxr(a[0])}"
+    if tag == "CASRefMismatch":
+        return f"{px}ref-mismatch:{a[0]}:{a[1]}"
+    if tag == "CASMissingBlob":
+        return f"E:missing-blob:{hxr(a[0])}:{RC.hex(a[1])}"
+    if tag == "CASHashMismatch":
+        return f"E:hash-mismatch:{hxr(a[0])}:{hxr(a[1])}"
+    if tag == "CASLenMismatch":
+        return f"E:len-mismatch:{a[0]}:{a[1]}"
+    raise ValueError(res)
+
+
+def render_model_exp(c, hs, vals):
+    """Replays the control flow of exp::run on the model's outcomes and prints the tokens the model predicts."""
+    V, R, RC, seg_h = exp_worlds(c, hs)
+    val = {name: v for (name, _), v in zip(V, vals)}
+    def export(name):
+        """outcome of an export call followed (if it succeeds) by nothing: 'ok' or the export-stage token"""
+        res, retok = val[name]
+        r = res[2][0]
+        if r in ("SCOk",):
+            return "ok" if retok == "true" else "E:x-retention"
+        if res[1] == "inr":
+            # export of the CAS profile only canonicalises and compares the reference set
+            if r == "CASDuplicate" or (isinstance(r, tuple) and r[1] == "CASRefMismatch"):
+                return exp_tok(res, R, RC, "x")
+            return "ok" if retok == "true" else "E:x-retention"
+        return exp_tok(res, R, RC, "x")
+    out = []
+    sc = export("sc")
+    out.append(f"sc={sc}")
+    if sc == "ok":
+        for name, _ in V:
+            if name.startswith("sc.w") or name.startswith("sc.c"):
+                out.append(f"{name}={export(name)}")
+            elif name.startswith("sc.i") and not name.endswith(".x"):
+                if export(name + ".x") == "ok":
+                    out.append(f"{name}={exp_tok(val[name][0], R, RC, 'i')}")
+    cas = export("cas")
+    if cas == "ok":
+        cas = exp_tok(val["cas"][0], R, RC, "i")
+    out.append(f"cas={cas}")
+    if cas == "ok":
+        for name, _ in V:
+            if not name.startswith("cas.") or name.endswith(".x"):
+                continue
+            if name.startswith("cas.xr"):
+                out.append(f"{name}={export(name)}")
+            elif name.startswith("cas.l") or name.startswith("cas.ir"):
+                xn = name + ".x" if name.startswith("cas.ir") else name
+                if export(xn) == "ok":
+                    out.append(f"{name}={exp_tok(val[name][0], R, RC, 'i')}")
+            else:
+                out.append(f"{name}={exp_tok(val[name][0], R, RC, 'i')}")
+    # segment-blob tokens carry the digest of the real WAL segment, unknown to the model: keep the class only
+    out = [t.split(":")[0] + ":" + t.split(":")[1] if ("seg=" in t and t.count(":") > 1) else t for t in out]
+    return "res=" + ",".join(out)
+
+
+def exp_impl_view(line):
+    """the tokens of a harness kind=exp line that the model predicts (the rest is oracle-only)"""
+    keep = []
+    for t in line[4:].split(","):
+        k = t.split("=")[0]
+        if k in ("sc", "cas") or k.startswith(("sc.w", "sc.c", "sc.iw", "sc.ic", "cas.w", "cas.l", "cas.xr", "cas.ir")) \
+                or (k.startswith("cas.c") and k.endswith(".given")):
+            if k in ("cas.wseg", "cas.lseg") and t.count(":") > 1:
+                t = t.split(":")[0] + ":" + t.split(":")[1]
+            keep.append(t)
+    return "res=" + ",".join(keep)
 
 
 _CUR = [None]
@@ -417,15 +637,15 @@ def mem_dump_str(c, hs, d):
 def render_model(c, hs, v):
     _CUR[0] = case_ranks(c, hs)[0]
     if c["kind"] == "mem":
-        outs, d = v[0], v[1:]
+        outs, d = v
         return f"res={','.join(out_tok(o) for o in outs) or '-'} {mem_dump_str(c, hs, d)}"
     if c["kind"] == "disk":
-        outs, probes, pc, files = v
+        outs, (probes, pc, files) = v
         uni = universe(c, hs)
         ds = ";".join(f"{vf.hex32(h)}:{out_tok(g)}:{1 if p == 'true' else 0}" for h, (g, p) in zip(uni, probes)) or "-"
         fl = ";".join(f"{HX(h)}:{vf.hexb(b)}" for h, b in files) or "-"
         return f"res={','.join(out_tok(o) for o in outs) or '-'} dump={ds} pins={pc} files={fl}"
-    outs, d, descs = v[0], v[1:6], v[6]
+    outs, d, descs = v
     ix = ";".join("n" if x == "None" else f"d{HX(x[2][0][0])}/{x[2][0][1]}" for x in descs) or "-"
     return f"res={','.join(iout_tok(o) for o in outs) or '-'} {mem_dump_str(c, hs, d)} idx={ix}"
 
@@ -442,9 +662,21 @@ def both(tag, cases, bins, model=True):
     oracle = [l.split(" oracle=")[1].split()[0] if " oracle=" in l else "FAIL:no-oracle" for l in full]
     if not model:
         return impl, None, oracle
+    if len(impl) != len(cases):
+        raise vf.Broken(f"harness printed {len(impl)} lines for {len(cases)} cases: {out[-600:]}")
+    both.last_full = list(impl)
     hs = hashes_for(cases)
-    vals = vf.coq_eval(tag, PRE, [to_term(c, h) for c, h in zip(cases, hs)])
-    return impl, [render_model(c, h, v) for c, h, v in zip(cases, hs, vals)], oracle
+    vals = vf.coq_eval(tag, PRE, [to_term_exp(c, h) if c["kind"] == "exp" else to_term(c, h) for c, h in zip(cases, hs)])
+    mod = []
+    for i, (c, h, v) in enumerate(zip(cases, hs, vals)):
+        if c["kind"] == "exp":
+            # material-level outcomes of the self-contained and CAS-addressed profiles are modelled; the ref-only
+            # profile, WSC envelopes, projection comparison and WAL segment recovery are oracle-only
+            mod.append(render_model_exp(c, h, v))
+            impl[i] = exp_impl_view(impl[i])
+        else:
+            mod.append(render_model(c, h, v))
+    return impl, mod, oracle
 
 
 def run(tier, seed, replay=None):
@@ -475,6 +707,8 @@ def run(tier, seed, replay=None):
             cases.append(gen_disk_every_file(r.rng))
         for i in range(150 if q else 2500):
             cases.append(gen_idx(r.rng, big=(i % 10 == 9)))
+        for i in range(60 if q else 800):
+            cases.append(gen_exp(r.rng))
         cases += list(exhaustive("mem", 2)) + list(exhaustive("disk", 2))
         if not q:
             cases += list(exhaustive("mem", 4)) + list(exhaustive("disk", 4))
@@ -486,6 +720,7 @@ def run(tier, seed, replay=None):
         return r.finish()
     try:
         impl, model, oracle = both("c20", cases, bins)
+        both.last_full_main = list(both.last_full)
     except vf.Broken as e:
         r.is_broken("correspondence-run", e)
         return r.finish()
@@ -512,7 +747,7 @@ def run(tier, seed, replay=None):
         # P6 search: bigger budget on the implementation's own oracle (no model in the loop)
         extra = []
         for i in range(4000):
-            extra.append([gen_mem, gen_disk, gen_idx, gen_disk_every_file][i % 4](r.rng) if i % 4 == 3
+            extra.append([gen_disk_every_file, gen_exp][(i // 4) % 2](r.rng) if i % 4 == 3
                          else [gen_mem, gen_disk, gen_idx][i % 4](r.rng, big=(i % 3 == 0)))
         extra += list(exhaustive("mem", 3)) + list(exhaustive("disk", 3))
         try:
@@ -537,17 +772,31 @@ def run(tier, seed, replay=None):
         res["mm"] += body.count("mm:"); res["conflict"] += body.count("E:conflict"); res["missing-blob"] += body.count("E:blob")
         res["missing-coord"] += body.count("E:coord"); res["budget"] += body.count("E:budget"); res["oob"] += body.count("E:oob")
         res["none"] += body.count(",n,")
-    nontriv = {render_case(c) for c in cases if sum(1 for o in c["ops"] if o[0] in "pvRwd") >= 2 and len(c["ops"]) >= 4}
+    nontriv = {render_case(c) for c in cases if (sum(1 for o in c["ops"] if o[0] in "pvRwd") >= 2 and len(c["ops"]) >= 4)
+               or (c["kind"] == "exp" and c["mats"])}
     r.cov["evaluations"] = len(cases)
     r.cov["distinct_nontrivial"] = len(nontriv)
     r.cov["rule"] = ("random + structured + exhaustive-small operation sequences on MemoryTier, DiskTier (real files under /tmp/C20-*, "
                      "with flip/truncate/extend/replace corruption, deletion of every stored file, stray temp files, reopen) and "
                      "RetainedBlobIndex; every case runs through the harness and the Coq model and the canonical lines are compared; "
-                     "non-trivial = at least 4 ops of which at least 2 mutate (put/put_verified/retain/env write/env delete)")
+                     "non-trivial = at least 4 ops of which at least 2 mutate (put/put_verified/retain/env write/env delete); kind=exp cases "
+                     "(real WAL segment + record set through the three wsc export profiles with every referenced blob withheld/"
+                     "corrupted) are checked by the harness oracle only and count as non-trivial when they carry retained material")
     r.cov["case_kinds"] = kinds
     r.cov["op_histogram"] = dict(sorted(opk.items()))
     r.cov["result_kinds_hit"] = res
+    nexp = sum(1 for c in cases if c["kind"] == "exp")
     r.cov["traces_validated_against_impl"] = len(cases) - len(bad)
+    r.cov["export_profile_cases"] = nexp
+    ev = {}
+    for c, l in zip(cases, getattr(both, "last_full_main", impl)):
+        if c["kind"] == "exp":
+            for t in l[4:].split(","):
+                k, _, v = t.partition("=")
+                k = k.rstrip("0123456789") if not k.startswith("cas.c") else "cas.c"
+                cls = v.split(":")[0] + (":" + v.split(":")[1] if v.startswith("E:") else "")
+                ev[k + "->" + cls.split("*")[0]] = ev.get(k + "->" + cls.split("*")[0], 0) + 1
+    r.cov["export_profile_variant_outcomes"] = dict(sorted(ev.items()))
     r.cov["samples"] = [render_case(c) for c in cases[:2]] + [render_case(c) for c in cases if c["kind"] == "idx"][:1]
     r.phase("P4_correspondence", cases=len(cases), differing=len(bad))
     r.phase("P5_oracle", failing=sum(1 for o in oracle if o != "ok"))
